@@ -28,12 +28,18 @@ open PolyVerif.Spec.GbRoundTrip in
 parser model accepts the text `Build` writes and returns the record the writer was given: same
 sequence, locus, metadata, references (each with its own number when it has one, else numbered by its
 position), extra blocks, and per feature the
-same key, the same location text (cached, else `BuildLocationString` of the structure) and the
-same qualifier map.  Metadata of any length (wrapped by `WrapString` wherever it breaks), any
-number of features / qualifiers / references / blocks, any sequence length < 10^8. -/
+same key, the same location text (cached, else `BuildLocationString` of the structure), for a feature
+written from its cached text also the same location STRUCTURE (`parseLocation` of the text read back,
+modulo `normLoc`), and the same qualifier map.  Metadata of any length (wrapped by `WrapString`
+wherever it breaks), any number of features / qualifiers / references / blocks, any sequence length
+< 10^8.  The result is stated EXACTLY: it is `toSequence (toRec x)`, the record that property C01's
+abstract record type states for `x` — in particular an UNSET `Reference.Index` comes back as the
+position, because that is what `Build` writes for it (be39eee): `{Index:""}` at position 1 and
+`{Index:"1"}` are written to the same bytes, and `approx` says so (`withDefaultIndex`). -/
 theorem parse_build_partial (x : Sequence) (o : MapOrders) (h : covered x = true) :
-    ∃ y, Genbank.parse (build x o) = .ok y ∧ approx x y = true :=
-  ⟨_, PolyVerif.Lemmas.GbRoundTripG.parse_build_covered x o h, PolyVerif.Lemmas.GbRoundTripG.approx_covered x h⟩
+    Genbank.parse (build x o) = .ok (PolyVerif.GbLayout.toSequence (toRec x))
+      ∧ approx x (PolyVerif.GbLayout.toSequence (toRec x)) = true :=
+  ⟨PolyVerif.Lemmas.GbRoundTripG.parse_build_covered x o h, PolyVerif.Lemmas.GbRoundTripG.approx_covered x h⟩
 
 /-- a sparse record: no length, molecule type, topology, division or date; a reference without range -/
 def sparseRecord : Sequence :=
